@@ -76,6 +76,7 @@ static Json op_to_json(const Op &op) {
         o.set("fill", op.fill);
         o.set("guard_side", op.guard ? "front" : "behind");
       }
+      if (op.on) o.setb("code_through_deprecated_alias_only", true);
       if (op.twin) o.setb("twin", true);
       if (op.twin && op.k > 0) o.set("twin_capacity", op.k);
       break;
@@ -165,6 +166,7 @@ static bool op_from_json(const Json &o, Op &op, std::string *err) {
   if (o.has("k")) op.k = o.num("k");
   op.on = o.boolean("on");
   if (o.str("dest") == "NULL") op.on = true;
+  if (op.kind == OP_CREATE && o.boolean("code_through_deprecated_alias_only")) op.on = true;
   if (const Json *l = o.get("lines"))
     for (const Json &s : l->a) op.lines.push_back(s.s);
   op.final_nl = o.boolean("final_newline", true);
